@@ -103,17 +103,18 @@ func (g *gen) genFuncFor(ftyp *types.Signature) error {
 	name := g.GetFuncName(ftyp)
 	gtyp := flipSig(ftyp)
 	gStr := g.TypeString(gtyp)
+	f := derive.UnusedName("f", ftyp.Params(), ftyp.Results())
 	p.P("")
 	p.P("// %s returns the input function, but where first two parameters are flipped.", name)
-	p.P("func %s(f %s) %s {", name, fStr, gStr)
+	p.P("func %s(%s %s) %s {", name, f, fStr, gStr)
 	p.In()
 	p.P("return %s {", gStr)
 	p.In()
 	as := varnames(ftyp.Params())
 	if ftyp.Results().Len() == 0 {
-		p.P("f(%s)", strings.Join(as, ", "))
+		p.P("%s(%s)", f, strings.Join(as, ", "))
 	} else {
-		p.P("return f(%s)", strings.Join(as, ", "))
+		p.P("return %s(%s)", f, strings.Join(as, ", "))
 	}
 	p.Out()
 	p.P("}")
